@@ -623,6 +623,7 @@ func (r *run) client(j int, c Client) {
 	if c.Pipeline {
 		sent := 0
 		for qi := range c.Reqs {
+			r.log.Addf("client(%d).sending(%d)", j, qi+1) // before the first octet leaves
 			if err := co.WriteMsg(mk(qi + 1)); err != nil {
 				// the server is gone; the replies to what was sent before must still be read
 				r.log.Addf("client(%d).senderr(%d)", j, qi+1)
@@ -647,6 +648,7 @@ func (r *run) client(j int, c Client) {
 	} else {
 		for qi := range c.Reqs {
 			q := qi + 1
+			r.log.Addf("client(%d).sending(%d)", j, q)
 			if err := co.WriteMsg(mk(q)); err != nil {
 				r.log.Addf("client(%d).senderr(%d)", j, q)
 				ok = false
@@ -1252,10 +1254,27 @@ func (r *run) invariants() error {
 			continue
 		}
 		if ctxGaveUp {
-			continue // I1 waived; nothing asserted about handlers around a Shutdown that gave up
+			// I1 waived, and nothing is asserted about handlers of requests that were on their way
+			// when Shutdown gave up (a request that has been read is served, whenever its handler gets
+			// to run). What can be decided: a request whose client began to send it only after that
+			// Shutdown had returned was read after it - the server must have stopped reading by then.
+			// (Not when the same Server value was started again meanwhile: on loopback the new run may
+			// have been given the port the old one has just released.)
+			if snd := idx(fmt.Sprintf("client(%d).sending(%d)", j, q)); snd > effRet && effRet >= 0 && j < restartBase && r.child == nil {
+				return r.fail("I3: the request of handler (%d,%d) was sent only after Shutdown had returned (%v), yet it was read and its handler was started", j, q, effErr)
+			}
+			continue
 		}
 		if j >= restartBase {
 			continue // a handler of the second run (restart while Shutdown 1 was still waiting): judged there
+		}
+		if r.child != nil && r.s.loopback() {
+			// the same Server value was started again while this run was ending: a request that a
+			// client of this run sent after that may have reached the NEW run (the kernel can give it the
+			// port that this run has just released), which serves it rightly
+			if mark := idx("restart(*)"); mark >= 0 && idx(fmt.Sprintf("client(%d).sending(%d)", j, q)) > mark {
+				continue
+			}
 		}
 		if i > effRet {
 			return r.fail("I3: handler (%d,%d) was started after Shutdown had returned", j, q)
